@@ -2,8 +2,6 @@ package props
 
 import (
 	"fmt"
-	"os"
-	"path/filepath"
 	"sort"
 	"strings"
 	"time"
@@ -274,10 +272,7 @@ func c11CLI(c *fw.Ctx) fw.Outcome {
 		s := int64(r.Intn(40)) * 250
 		cs[i] = tcue{s * 1e6, (s + int64(r.Range(1, 12))*250) * 1e6, fw.Pick(r, []string{"alpha", "beta"})}
 	}
-	in := filepath.Join(c.TmpDir(), "in.srt")
-	out := filepath.Join(c.TmpDir(), "out.srt")
-	os.WriteFile(in, []byte(simpleSRT(cs)), 0o644)
-	out = outPath(r, in, out)
+	in, out, _, formats := cliFiles(c, r, cs) // (all times are multiples of 250 ms: every format holds them exactly)
 	key := hashCues(cs, 0xc11)
 	msg, err := cli("unfragment", "-i", in, "-o", out)
 	if err != nil {
@@ -288,7 +283,7 @@ func c11CLI(c *fw.Ctx) fw.Outcome {
 		return fw.Bad(key, nil, "CLI unfragment output unreadable: %v", err)
 	}
 	if a, b := fmtExp(c11Spec(cs)), fmtCues(cuesOf(got.Items)); a != b {
-		return fw.Bad(key, nil, "CLI unfragment on %s: got %s, specification %s", fmtCues(cs), b, a)
+		return fw.Bad(key, nil, "CLI unfragment (%s) on %s: got %s, specification %s", formats, fmtCues(cs), b, a)
 	}
 	c.Count("cli_unfragment_runs", 1)
 	return fw.OK(key, map[string]interface{}{"cli": "unfragment", "cues": fmtCues(cs)})
